@@ -63,12 +63,12 @@ func (z *ZodIPv4[T]) Nullish() *ZodIPv4[*string] {
 
 // IPv4 creates an IPv4 address validation schema.
 func IPv4(params ...any) *ZodIPv4[string] {
-	return newIPv4(newNetworkSchema(StringTyped[string](params...), checks.IPv4()))
+	return newIPv4(newNetworkSchema(StringTyped[string](params...), checks.IPv4(params...)))
 }
 
 // IPv4Ptr creates a pointer IPv4 address validation schema.
 func IPv4Ptr(params ...any) *ZodIPv4[*string] {
-	return newIPv4(newNetworkSchema(StringPtr(params...), checks.IPv4()))
+	return newIPv4(newNetworkSchema(StringPtr(params...), checks.IPv4(params...)))
 }
 
 // ZodIPv6 validates strings in IPv6 address format.
@@ -109,12 +109,12 @@ func (z *ZodIPv6[T]) Nullish() *ZodIPv6[*string] {
 
 // IPv6 creates an IPv6 address validation schema.
 func IPv6(params ...any) *ZodIPv6[string] {
-	return newIPv6(newNetworkSchema(StringTyped[string](params...), checks.IPv6()))
+	return newIPv6(newNetworkSchema(StringTyped[string](params...), checks.IPv6(params...)))
 }
 
 // IPv6Ptr creates a pointer IPv6 address validation schema.
 func IPv6Ptr(params ...any) *ZodIPv6[*string] {
-	return newIPv6(newNetworkSchema(StringPtr(params...), checks.IPv6()))
+	return newIPv6(newNetworkSchema(StringPtr(params...), checks.IPv6(params...)))
 }
 
 // ZodCIDRv4 validates strings in CIDRv4 notation format.
@@ -155,12 +155,12 @@ func (z *ZodCIDRv4[T]) Nullish() *ZodCIDRv4[*string] {
 
 // CIDRv4 creates a CIDRv4 notation validation schema.
 func CIDRv4(params ...any) *ZodCIDRv4[string] {
-	return newCIDRv4(newNetworkSchema(StringTyped[string](params...), checks.CIDRv4()))
+	return newCIDRv4(newNetworkSchema(StringTyped[string](params...), checks.CIDRv4(params...)))
 }
 
 // CIDRv4Ptr creates a pointer CIDRv4 notation validation schema.
 func CIDRv4Ptr(params ...any) *ZodCIDRv4[*string] {
-	return newCIDRv4(newNetworkSchema(StringPtr(params...), checks.CIDRv4()))
+	return newCIDRv4(newNetworkSchema(StringPtr(params...), checks.CIDRv4(params...)))
 }
 
 // ZodCIDRv6 validates strings in CIDRv6 notation format.
@@ -201,12 +201,12 @@ func (z *ZodCIDRv6[T]) Nullish() *ZodCIDRv6[*string] {
 
 // CIDRv6 creates a CIDRv6 notation validation schema.
 func CIDRv6(params ...any) *ZodCIDRv6[string] {
-	return newCIDRv6(newNetworkSchema(StringTyped[string](params...), checks.CIDRv6()))
+	return newCIDRv6(newNetworkSchema(StringTyped[string](params...), checks.CIDRv6(params...)))
 }
 
 // CIDRv6Ptr creates a pointer CIDRv6 notation validation schema.
 func CIDRv6Ptr(params ...any) *ZodCIDRv6[*string] {
-	return newCIDRv6(newNetworkSchema(StringPtr(params...), checks.CIDRv6()))
+	return newCIDRv6(newNetworkSchema(StringPtr(params...), checks.CIDRv6(params...)))
 }
 
 // ZodURL validates strings in URL format.
@@ -277,7 +277,7 @@ func URLTyped[T StringConstraint](params ...any) *ZodURL[T] {
 		}
 	}
 	if check == nil {
-		check = checks.URL()
+		check = checks.URL(params...)
 	}
 
 	return newURL(newNetworkSchema(base, check))
@@ -299,7 +299,7 @@ func HTTPURLTyped[T StringConstraint](params ...any) *ZodURL[T] {
 	base := StringTyped[T](params...)
 	check := checks.URLWithOptions(validate.URLOptions{
 		Protocol: regex.HTTPProtocol,
-	})
+	}, params...)
 	return newURL(newNetworkSchema(base, check))
 }
 
@@ -341,12 +341,12 @@ func (z *ZodHostname[T]) Nullish() *ZodHostname[*string] {
 
 // Hostname creates a hostname validation schema.
 func Hostname(params ...any) *ZodHostname[string] {
-	return newHostname(newNetworkSchema(StringTyped[string](params...), checks.Hostname()))
+	return newHostname(newNetworkSchema(StringTyped[string](params...), checks.Hostname(params...)))
 }
 
 // HostnamePtr creates a pointer hostname validation schema.
 func HostnamePtr(params ...any) *ZodHostname[*string] {
-	return newHostname(newNetworkSchema(StringPtr(params...), checks.Hostname()))
+	return newHostname(newNetworkSchema(StringPtr(params...), checks.Hostname(params...)))
 }
 
 // ZodMAC validates strings in MAC address format.
@@ -453,12 +453,12 @@ func (z *ZodE164[T]) Nullish() *ZodE164[*string] {
 
 // E164 creates an E.164 phone number validation schema.
 func E164(params ...any) *ZodE164[string] {
-	return newE164(newNetworkSchema(StringTyped[string](params...), checks.E164()))
+	return newE164(newNetworkSchema(StringTyped[string](params...), checks.E164(params...)))
 }
 
 // E164Ptr creates a pointer E.164 phone number validation schema.
 func E164Ptr(params ...any) *ZodE164[*string] {
-	return newE164(newNetworkSchema(StringPtr(params...), checks.E164()))
+	return newE164(newNetworkSchema(StringPtr(params...), checks.E164(params...)))
 }
 
 // =============================================================================
